@@ -12,8 +12,14 @@ For every struct S with C++ sizeof n:
         pack direction: take the baseline object, transplant exactly the changed attributes from A', pack;
         the first n bytes must equal buffer'[:n] (i.e. changing the attribute changes exactly byte b)
   for bytes in the tail right after the struct (n .. n+7) the same, to see whether Python reads past sizeof.
-Nothing here knows the C++ member boundaries: the observation is per byte."""
-import copy, importlib, json, math, os, struct, sys
+Nothing here knows the C++ member boundaries: the observation is per byte.
+
+Message payload classes are probed on every way the library reads them (each gets its own full table):
+  explicit : payload.unpack(buffer, offset=0, message_version=cls.MESSAGE_VERSION)   (MixedLogReader, fast indexer)
+  default  : payload.unpack(buffer, offset=0)                                        (the documented call)
+  decoder  : the payload framed with a MessageHeader (type, version, size, CRC) and fed to FusionEngineDecoder.on_data()
+Sub-structures have a single way ("only")."""
+import copy, importlib, json, logging, math, os, struct, sys
 
 OUT_FD = os.dup(1)
 os.dup2(2, 1)
@@ -22,6 +28,8 @@ import numpy as np
 import fusion_engine_client.messages as M          # noqa: E402  (registers every payload class)
 
 TAIL = 1 << 16
+DECODER_TAIL = 2048          # a failed decode rescans the whole buffer byte by byte: keep it short on that path
+logging.disable(logging.CRITICAL)
 MASKS = [0x01, 0x80, 0x5A, 0x02, 0x04, 0x08, 0x10, 0x20, 0x40, 0xFF, 0xA5, 0x03, 0x81, 0x7F, 0xC3, 0x3C]
 
 
@@ -68,20 +76,37 @@ class Adapter:
     """uniform view: unpack(bytes) -> (object, consumed or None); attrs(object) -> {name: value};
     transplant(base_obj, other_obj, names) -> new object; pack(object) -> bytes"""
 
-    def __init__(self, spec):
+    def __init__(self, spec, path='only'):
         self.spec = spec
         self.kind = spec['kind']
+        self.path = path
         self.target = locate(spec['py'])
         self.kw = spec.get('unpack_kwargs') or {}
+        self.tail = DECODER_TAIL if path == 'decoder' else TAIL
 
     def unpack(self, buf):
         if self.kind == 'construct':
             return self.target.parse(bytes(buf)), None
+        if self.kind == 'payload' and self.path == 'decoder':
+            from fusion_engine_client.messages.defs import MessageHeader
+            from fusion_engine_client.parsers import FusionEngineDecoder
+            h = MessageHeader()
+            h.message_type = self.target.MESSAGE_TYPE
+            h.message_version = self.target.MESSAGE_VERSION
+            framed = h.pack(payload=bytes(buf))
+            dec = FusionEngineDecoder(warn_on_error=FusionEngineDecoder.WarnOnError.NONE)
+            msgs = dec.on_data(bytes(framed))
+            if len(msgs) != 1 or not isinstance(msgs[0][1], self.target):
+                raise RuntimeError('decoder returned %d messages' % len(msgs))
+            # the decoder discards what unpack() returns; the consumed length is taken from the very call it makes
+            # (same framed bytes, offset = header size, no version), so count / length members stay observable
+            consumed = self.target().unpack(buffer=bytes(framed), offset=MessageHeader.calcsize())
+            return msgs[0][1], consumed
         o = self.target()
-        if self.kind == 'payload':
+        if self.kind == 'payload' and self.path == 'explicit':
             n = o.unpack(buffer=bytes(buf), offset=0, message_version=self.target.MESSAGE_VERSION, **self.kw)
         else:
-            n = o.unpack(buffer=bytes(buf), offset=0, **self.kw)
+            n = o.unpack(buffer=bytes(buf), offset=0, **self.kw)      # 'default' path: no version given
         return o, n
 
     def attrs(self, o):
@@ -131,11 +156,12 @@ def container_len(c):
     return None
 
 
-def probe(spec, k):
+def probe(spec, k, path='only'):
     n = spec['size']
-    res = {'cpp': spec['cpp'], 'py': spec['py'], 'size': n}
+    res = {'cpp': spec['cpp'], 'py': spec['py'], 'size': n, 'path': path}
     try:
-        ad = Adapter(spec)
+        ad = Adapter(spec, path)
+        TAIL = ad.tail
     except Exception as e:
         res['error'] = 'cannot locate Python counterpart: %r' % (e,)
         return res
@@ -282,10 +308,12 @@ def main():
     req = json.load(sys.stdin)
     out = {}
     for spec in req['structs']:
-        try:
-            out[spec['cpp']] = probe(spec, int(req.get('patterns', 3)))
-        except Exception as e:          # never lose the whole run to one struct
-            out[spec['cpp']] = {'cpp': spec['cpp'], 'py': spec.get('py'), 'size': spec['size'], 'error': 'probe crashed: %r' % (e,)}
+        out[spec['cpp']] = {}
+        for path in (['explicit', 'default', 'decoder'] if spec['kind'] == 'payload' else ['only']):
+            try:
+                out[spec['cpp']][path] = probe(spec, int(req.get('patterns', 3)), path)
+            except Exception as e:          # never lose the whole run to one struct
+                out[spec['cpp']][path] = {'cpp': spec['cpp'], 'py': spec.get('py'), 'size': spec['size'], 'path': path, 'error': 'probe crashed: %r' % (e,)}
     os.write(OUT_FD, (json.dumps({'c02': 1, 'results': out}) + '\n').encode())
 
 
